@@ -34,8 +34,48 @@ def bounded(tier, seed):
     f = H.alignment_table_case()
     if f:
         return n, f, {'case': 'alignment table'}
+    n += 1
+    f = header_variant_case()
+    if f:
+        return n, f, {'case': 'header field variants'}
     m, f, inp = H.bounded_roundtrip(tier, seed)
     return n + m, f, inp
+
+
+def header_variant_case():
+    """'variants carry the signature of their content' for the variants of a message header (txdbus/message.py): every header field of a
+    message that is built, and of one that was parsed and is serialised again (what the bus does with every message), is written as a
+    variant of the type the specification gives that field - in either byte order, for serials up to 2^32 - 1"""
+    from txdbus import message
+    from . import message_harness as MH
+    from . import wire_ref as W
+    built = [('a method return', message.MethodReturnMessage(2 ** 32 - 1, destination=':1.5', signature='s', body=['x'])),
+             ('an error', message.ErrorMessage('a.b.E', 2 ** 31, destination=':1.5', signature='s', body=['x'])),
+             ('a call', message.MethodCallMessage('/p', 'M', interface='a.b', destination='a.b', signature='ai', body=[[1, 2]])),
+             ('a call with descriptors', message.MethodCallMessage('/p', 'M', signature='h', body=[3], oobFDs=[])),
+             ('a signal', message.SignalMessage('/p', 'S', 'a.b', signature='u', body=[7]))]
+    for what, m in built:
+        f = MH.header_types_ok(m.rawMessage, what + ' as built')
+        if f:
+            return f
+    for le in (True, False):
+        for rs in (1, 2 ** 31 - 1, 2 ** 31, 2 ** 32 - 1):
+            for mtype, fields in ((2, [(5, rs), (6, ':1.5'), (8, 'su')]), (3, [(4, 'a.b.E'), (5, rs), (6, ':1.5'), (8, 'su')])):
+                raw = MH.ref_message(mtype, 0, 77, fields, 'su', ['x', 9], le)
+                try:
+                    back = message.parseMessage(raw, [])
+                    back.sender = ':1.9'
+                    back._marshal(False, rawBody=back.rawBody)
+                    again = back.rawMessage
+                except Exception as e:
+                    return 'serialising a parsed %s-endian reply (reply serial %d) again raised %s: %s' % ('little' if le else 'big', rs, type(e).__name__, e)
+                f = MH.header_types_ok(again, 'a parsed %s-endian reply to serial %d, serialised again' % ('little' if le else 'big', rs))
+                if f:
+                    return f
+                vals, _n = W.decode(MH.HDR, again, 0, again[:1] == b'l')
+                if dict((c, v) for c, v in vals[6]).get(5) != rs:
+                    return 'a parsed reply to serial %d, serialised again, names the serial %r' % (rs, dict((c, v) for c, v in vals[6]).get(5))
+    return None
 
 
 def replay(function, clause, model):
